@@ -115,10 +115,11 @@ Proof.
   - apply safe_step. intros g vs rf tr Hi Hv. cbn [a_ld_l fst snd vb].
     assert (Hu : uses (vs t) n x) by (rewrite Hv; right; cbn; now rewrite !Nat.eqb_refl).
     exists (LWait n x, s), rf. split; [|destruct (lspin g x); apply IH].
-    rewrite <- Hv. apply (step_same g); auto.
+    destruct (lock_obj_allocated g vs rf tr t n x Hi Hu) as [A B].
+    rewrite <- Hv. apply (step_same g); [exact Hi|auto|auto|auto|auto|auto| | |].
     + intros; apply occ_acc.
-    + destruct (lock_obj_allocated g vs rf tr t n x Hi Hu) as [A B]. destruct Hi as (_ & _ & _ & _ & _ & HD).
-      eapply disc_lacc; eauto.
+    + intros; reflexivity.
+    + destruct Hi as (_ & _ & _ & _ & _ & HD). eapply disc_lacc; eauto.
 Qed.
 
 Lemma safe_st_then_slock fuel t n c x s :
@@ -139,7 +140,7 @@ Proof.
     + apply safe_step. intros g1 vs1 rf1 tr1 Hi Hv. unfold a_alloc.
       destruct (pool g1) as [|x r] eqn:Ep; cbn [fst snd vn].
       * exists (LBitS n c (fresh g1), s), rf1. split; [|apply safe_st_then_slock].
-        apply step_alloc; auto. right. auto.
+        apply step_alloc; auto.
       * exists (LBitS n c x, s), rf1. split; [|apply safe_st_then_slock].
         apply step_alloc; auto.
 Qed.
@@ -158,7 +159,7 @@ Proof.
   apply safe_step. intros g vs rf tr Hi Hv. unfold a_cas_unlock.
   destruct (Nat.eqb_spec (refspin g n) (2 * k)) as [E|E]; cbn [fst snd].
   - destruct (Nat.eqb_spec (2 * k) 2) as [E2|E2]; cbn [fst snd].
-    + exists (UBit n 2 (plock g n), s), rf. rewrite E2 in *. split; [apply step_cas_unlock_take; auto|]. cbn. now rewrite E2.
+    + exists (UBit n 2 (plock g n), s), rf. rewrite E2 in *. split; [apply step_cas_unlock_take; auto|]. reflexivity.
     + exists (UBit n (2 * k) None, s), rf. split; [apply step_cas_unlock_keep; auto|]. cbn. reflexivity.
   - exists (URel n, s), rf. split.
     + rewrite <- Hv. apply (step_same g g); [exact Hi|auto|auto|auto|auto|auto|intros; apply occ_acc|intros; reflexivity|apply disc_acc_other, nlo_ref].
@@ -182,7 +183,7 @@ Proof.
       split; [apply step_st_unlock; auto|]. destruct o as [y|]; [|reflexivity].
       apply safe_step. intros g3 vs3 rf3 tr3 Hi3 Hv3. cbn [a_dealloc fst snd].
       exists (Idle, s), rf3. split; [apply step_dealloc; auto|reflexivity].
-    + apply safe_emit_quiet; try reflexivity. exact I.
+    + apply safe_emit_quiet; try reflexivity; try exact I.
 Qed.
 
 (** ** the nest of critical sections *)
@@ -204,7 +205,7 @@ Proof.
       rewrite Hp.
       apply safe_emit_step. intros g2 vs2 rf2 tr2 Hi2 Hv2. exists (ULeft n x, s), rf2. split; [apply step_leave; auto|].
       apply safe_mon_unlock.
-  - apply safe_emit_quiet; try reflexivity. exact I.
+  - apply safe_emit_quiet; try reflexivity; try exact I.
 Qed.
 
 Lemma safe_run_ops fuel t os : safe t (run_ops fuel os) (Idle, []) (@Conc.QTrue tv).
@@ -225,13 +226,22 @@ Qed.
 Lemma init_ok cap fuel ths : Conc.cfg_ok view Inv (init_cfg cap fuel ths).
 Proof.
   exists (fun _ => (Idle, []), fun _ => []). split.
-  - cbn [init_cfg Conc.shared Conc.trace]. unfold Inv. cbn [fst snd]. repeat split; cbn; try congruence; try lia; auto.
-    + intros n. right. split; auto.
-    + intros t x H. lia.
-    + apply seq_NoDup.
-    + intros x H. apply in_seq in H. lia.
+  - cbn [init_cfg Conc.shared Conc.trace]. unfold Inv. cbn [fst snd]. inv6.
+    + split; [|split; [|split]].
+      * intros t n. reflexivity.
+      * intros n. right. split; [intros t; reflexivity|reflexivity].
+      * intros t t' n H. discriminate.
+      * intros t. exact I.
+    + split; [|split]; cbn.
+      * intros t n x [[]|H]; discriminate.
+      * intros t n c H. discriminate.
+      * intros n n' x H. discriminate.
+    + split; [|split; [|split]]; cbn; try (intros; lia); intros; discriminate.
+    + split; [|split; [|split]]; cbn; try (intros; discriminate).
+      split; [apply seq_NoDup|]. intros x H. apply in_seq in H. lia.
     + intros n. left. split; auto.
-    + intros Hn Hx. exfalso. apply Hn. apply in_seq. lia.
+    + split; [exact I|]. intros x. cbn. split; [reflexivity|].
+      intros Hn Hx. exfalso. apply Hn. apply in_seq. lia.
   - intros t p Hp. cbn [init_cfg Conc.threads] in Hp. rewrite nth_error_map in Hp.
     destruct (nth_error ths t); inversion Hp; subst. apply safe_thread.
 Qed.
